@@ -420,7 +420,7 @@ AckData(ep, c) ==
            f1 == IF cw.inc # 0 THEN <<FWU(0, cw.inc)>> ELSE <<>>
            lk == Lookup(ep, c.sid)
            closedMark(e, fr) == IF fr # <<>> /\ ep.conn = "CLOSED" THEN Mark(e, "ack_data_when_closed") ELSE e
-       IN IF lk.c = "NoSuchStreamError" THEN CR(Mark(e1, "ack_data_nosuch_leak"), NSE)
+       IN IF lk.c = "NoSuchStreamError" THEN CR(ep, NSE)       \* the lookup comes first: nothing has changed (repo fix)
           ELSE IF lk.c = "StreamClosedError" \/ ~StreamOpen(ep.streams[c.sid]) THEN CR(closedMark(Emit(e1, f1), f1), OK)
           ELSE LET sw == WMProcess(ep.streams[c.sid].iw, c.n)
                    f2 == f1 \o (IF sw.inc # 0 THEN <<FWU(c.sid, sw.inc)>> ELSE <<>>)
@@ -719,7 +719,8 @@ ReceiveLoop(ep, fs, evs) ==
   IF fs = <<>> THEN [ep |-> ep, r |-> OK, ev |-> evs]
   ELSE LET r == RecvFrame(ep, fs[1]) IN
        IF r.x.c = "ok" THEN ReceiveLoop(r.ep, Tail(fs), evs \o [i \in 1..Len(r.ev) |-> Shift(r.ev[i], Len(evs))])
-       ELSE IF IsForeign(r.x) THEN [ep |-> Mark(r.ep, "foreign_exception_headers"), r |-> r.x, ev |-> <<>>]
+       ELSE IF IsForeign(r.x) THEN [ep |-> Mark(r.ep, IF r.x.c = "foreign:IndexError" THEN "foreign_index_error_empty_name"
+                                                      ELSE "foreign_unicode_error_header_encoding"), r |-> r.x, ev |-> <<>>]
        ELSE [ep |-> Terminate(r.ep, r.x.e), r |-> [c |-> r.x.c, e |-> r.x.e], ev |-> <<>>]
 Receive(ep, fs) ==
   IF ep.needPre /\ fs # <<>> THEN ReceiveLoop([ep EXCEPT !.needPre = FALSE], fs, <<>>)
